@@ -31,6 +31,13 @@ def conflict_histories(ctx, n):
                 if rng.random() < 0.3:
                     op["created"] = 1       # equal creation time: the name decides
                 ops.append(op)
+        if rng.random() < 0.35:
+            # the same ingress name in two namespaces, created at the same instant, declaring the same host and path
+            ops += [U.op_svc("s1", ns="e"), U.op_svc("s2", ns="e"), U.op_eps("s1", "e1", ns="e"), U.op_eps("s2", "e2", ns="e")]
+            t1, t2 = rng.sample(["t1", "t3", "t7", "t4", "t9"], 2)
+            a = U.op_ing(1, t1, dict(rng.choice(CONFLICT_ANN)), name="same", ns=rng.choice(["d", "e"]))
+            b = U.op_ing(1, t2, dict(rng.choice(CONFLICT_ANN)), name="same", ns="e" if a["name"].startswith("d/") else "d")
+            ops += [a, b]
         h = dict(id="cf-%d" % i, opt=dict(shards=0, watchwithoutclass=True), steps=[dict(ops=ops, fullfirst=False)])
         # a second, incremental step that reaches a conflict state through a permuted batch
         ops2 = []
